@@ -135,12 +135,30 @@ func c44MakeCert(name string, addrs []netip.Addr) (cert.Certificate, string) {
 		}
 		nets = append(nets, netip.PrefixFrom(a, bits))
 	}
-	c, _, _, _ := cert_test.NewTestCert(cert.Version2, cert.Curve_CURVE25519, ca, key, name, time.Time{}, time.Time{}, nets, nil, nil)
+	c, _, privPEM, _ := cert_test.NewTestCert(cert.Version2, cert.Curve_CURVE25519, ca, key, name, time.Time{}, time.Time{}, nets, nil, nil)
 	b, err := c.MarshalJSON()
 	if err != nil {
 		panic(err)
 	}
+	c44KeyOf[c] = privPEM
 	return c, string(b)
+}
+
+// c44KeyOf remembers the private key of every certificate made here, so that the node's own
+// certificate state can be built by the production constructor (all address/network tables filled
+// exactly as in a running node) instead of by hand.
+var c44KeyOf = map[cert.Certificate][]byte{}
+
+func c44CertState(c cert.Certificate) *CertState {
+	raw, _, curve, err := cert.UnmarshalPrivateKeyFromPEM(c44KeyOf[c])
+	if err != nil {
+		panic(err)
+	}
+	cs, err := newCertState(cert.Version2, nil, c, false, curve, raw, "aes")
+	if err != nil {
+		panic(err)
+	}
+	return cs
 }
 
 func c44GenAddrs(rt *rapid.T, tag string, avoid map[netip.Addr]bool) []netip.Addr {
@@ -194,7 +212,8 @@ func c44Build(rt *rapid.T) *c44World {
 		own[a] = true
 		tbl.Insert(netip.PrefixFrom(a, a.BitLen()))
 	}
-	cs := &CertState{v2Cert: ownCert, initiatingVersion: cert.Version2, myVpnAddrs: w.ownAddrs, myVpnAddrsTable: tbl}
+	_ = tbl
+	cs := c44CertState(ownCert)
 	pki := &PKI{}
 	pki.cs.Store(cs)
 
@@ -623,7 +642,8 @@ func TestC44_Probe_known_name_other_type_nxdomain(t *testing.T) {
 	tbl := new(bart.Lite)
 	tbl.Insert(netip.PrefixFrom(own[0], 32))
 	pki := &PKI{}
-	pki.cs.Store(&CertState{v2Cert: oc, initiatingVersion: cert.Version2, myVpnAddrs: own, myVpnAddrsTable: tbl})
+	_ = tbl
+	pki.cs.Store(c44CertState(oc))
 	c := config.NewC(l)
 	c.Settings["lighthouse"] = map[string]any{"am_lighthouse": true, "serve_dns": true}
 	hm := newHostMap(l)
